@@ -11,11 +11,13 @@ CONSTANTS
   Extra = {"zz", "logger", "self"}
   FullOptParams = 2
   FullOptKw = 1
+  KindParams = 3
 INVARIANT TypeOK
 INVARIANT BindAgree
 INVARIANT Conservation
 INVARIANT Rejection
 INVARIANT DeviationScope
+INVARIANT KindsOK
 INVARIANT LoggedOK
 INVARIANT Shape
 INVARIANT Emit
